@@ -108,7 +108,7 @@ class _MP:
     Pool = ControlledPool
 
 
-def replay_builds(mask_names, n_layers, alts, program, orders):
+def replay_builds(mask_names, n_layers, alts, program, orders, gs_ndarray=False):
     """program: list of thread counts for successive builds on one object; orders: execution orders of the pool calls"""
     sc = _sc()
     geo, masks = geometry(mask_names, n_layers, alts)
@@ -116,7 +116,9 @@ def replay_builds(mask_names, n_layers, alts, program, orders):
     vals["alt"] = [float(a) for a in alts]
     ref, _ = concrete_matrix(vals, masks, threads=1)
     n = len(masks)
-    args = (n, [numpy.asarray(m, dtype=float) for m in masks], vals["D"], list(vals["d"]), list(vals["alt"]), [list(p) for p in vals["gs"]],
+    gs = numpy.array([list(p) for p in vals["gs"]], dtype=float) if gs_ndarray else [list(p) for p in vals["gs"]]
+    gs0 = numpy.array(gs, dtype=float)
+    args = (n, [numpy.asarray(m, dtype=float) for m in masks], vals["D"], list(vals["d"]), list(vals["alt"]), gs,
             list(vals["wv"]), n_layers, list(vals["h"]), list(vals["r0"]), list(vals["L0"]))
     bad = False
     notes = []
@@ -129,7 +131,16 @@ def replay_builds(mask_names, n_layers, alts, program, orders):
         try:
             for k, th in enumerate(program):
                 cm.threads = th
-                M = numpy.array(cm.make_covariance_matrix(), dtype=float)
+                try:
+                    M = numpy.array(cm.make_covariance_matrix(), dtype=float)
+                except Exception as e:
+                    bad = True
+                    notes.append("%s pool: build %d (threads=%d) raises %s: %s" % ("real" if real_pool else "controlled", k, th, type(e).__name__, str(e)[:120]))
+                    break
+                if gs_ndarray and not numpy.array_equal(numpy.asarray(gs, dtype=float), gs0):
+                    bad = True
+                    notes.append("the caller's guide-star array was modified by build %d" % k)
+                    gs[...] = gs0
                 same = M.shape == ref.shape and numpy.array_equal(M, ref, equal_nan=True)
                 if not same:
                     bad = True
@@ -141,7 +152,7 @@ def replay_builds(mask_names, n_layers, alts, program, orders):
 
 
 # ------------------------------------------------------------------ the case
-def case_builds(ctx, mask_names, n_layers, alts, program, schedules):
+def case_builds(ctx, mask_names, n_layers, alts, program, schedules, gs_ndarray=False):
     sc = _sc()
     geo, masks = geometry(mask_names, n_layers, alts)
     ctx.encoded(sc.CovarianceMatrix.make_covariance_matrix, sc.CovarianceMatrix._make_covariance_matrix,
@@ -152,12 +163,21 @@ def case_builds(ctx, mask_names, n_layers, alts, program, schedules):
     ctx.assume("multiprocessing.Pool meets its documented contract (map/imap ordered, imap_unordered in completion order, chunks in order); real OS scheduling and pickling are outside")
     St.fork_schedules = schedules
 
+    if gs_ndarray:
+        ctx.bounds.update(guide_star_positions="one ndarray shared by the reference and the object under test (the documented type)")
+
+    def gargs(threads):
+        a = list(geo.args(threads=threads))
+        if gs_ndarray:
+            a[5] = core.obj(numpy.array(a[5], dtype=object))
+        return a
+
     def go():
         npx.PoolStub.executed = []
         with npx.symbolic(sc, extra={sc.__name__: {"structure_function_vk": _D}}):
-            ref = sc.CovarianceMatrix(*geo.args(threads=1))
+            ref = sc.CovarianceMatrix(*gargs(1))
             R = numpy.asarray(ref.make_covariance_matrix(), dtype=object).copy()
-            cm = sc.CovarianceMatrix(*geo.args(threads=program[0]))
+            cm = sc.CovarianceMatrix(*gargs(program[0]))
             outs = []
             for th in program:
                 cm.threads = th
@@ -169,12 +189,12 @@ def case_builds(ctx, mask_names, n_layers, alts, program, schedules):
     for pi, p in enumerate(paths):
         if p.exc is not None:
             ctx.prove("path%d raises %s" % (pi, type(p.exc).__name__), p.pc, z3.BoolVal(False),
-                      replay=lambda m: (True, dict(what="raises %r" % (p.exc,))), axioms=False)
+                      replay=lambda m: harness.pristine_call(replay_builds, mask_names, n_layers, list(alts), list(program), [], gs_ndarray), axioms=False)
             continue
         R, outs, executed = p.out
         orders = [o for (_, o) in executed]
         seen_orders.add(str(orders))
-        rp = lambda m, orders=orders: harness.pristine_call(replay_builds, mask_names, n_layers, list(alts), list(program), orders)
+        rp = lambda m, orders=orders: harness.pristine_call(replay_builds, mask_names, n_layers, list(alts), list(program), orders, gs_ndarray)
         for k, M in enumerate(outs):
             d = term_diff(M, R)
             goal = z3.BoolVal(False) if d is None else conj(d)
@@ -201,6 +221,11 @@ def build_cases(tier):
     for mk, nl, alts, prog, sched in P:
         name = "builds/%s/layers=%d/alts=%s/program=%s/%s" % ("+".join(mk), nl, ",".join(str(a) for a in alts), "-".join(map(str, prog)), "all-orders" if sched else "in-order")
         cases.append((name, case_builds, dict(mask_names=mk, n_layers=nl, alts=alts, program=prog, schedules=sched, _mode="EUF")))
+    # more worker processes than sensor pairs; guide-star positions handed over as one ndarray (rebuilds on one object)
+    cases.append(("builds/row+one/layers=1/alts=90000,0/program=5-7/in-order/more-workers-than-pairs", case_builds,
+                  dict(mask_names=["row", "one"], n_layers=1, alts=(90000, 0), program=[5, 7], schedules=False, _mode="EUF")))
+    cases.append(("builds/one+row/layers=2/alts=0,90000/program=2-1-2/in-order/gs-ndarray", case_builds,
+                  dict(mask_names=["one", "row"], n_layers=2, alts=(0, 90000), program=[2, 1, 2], schedules=False, gs_ndarray=True, _mode="EUF")))
     return cases
 
 
